@@ -26,14 +26,15 @@ from harness.core import (Ctx, Evidence, Failure, HarnessError, REPO, campaign, 
                           shard_seeds)
 
 LEVEL = 'exploration'
-RULE = ('(a) exhaustive: every sequence of <= 3 lines over a 34-form TAP line alphabet (ok/not ok with and without numbers 1,2,3,5,0,007, '
+RULE = ('(a) exhaustive: every sequence of <= 3 lines over a 35-form TAP line alphabet (ok/not ok with and without numbers 1,2,3,5,0,007 and a '
+        '5000-digit number, '
         'names, SKIP/TODO/unknown directives, plans 1..0-1..3 with valid and invalid trailers, TAP version 12/13/14, diagnostics, blank, '
         'YAML start/body/end, Bail out!, unknown and indented text), every sequence of 4 lines over 28 of these forms, and (thorough) every '
         'sequence of 5 lines over 20 of them; (b) generated streams <= 60 lines: a well-formed stream (version, early/late/no plan, '
         'explicit/implicit/mixed numbering, directives, YAML blocks, diagnostics) plus 0-3 mutations (delete/duplicate/insert/swap/replace/'
-        'renumber), and free sequences over the alphabet + 48 extra forms - once through Hypothesis (shrinkable) and, in bulk, through the '
+        'renumber), and free sequences over the alphabet + 56 extra forms (among them test/plan/version lines with 700- and 5000-digit numbers) - once through Hypothesis (shrinkable) and, in bulk, through the '
         'same grammar driven by a seeded random.Random (ddmin over lines on failure); (c) arbitrary unicode text, glued TAP fragments and '
-        'decoded random bytes (no-raise clause); (d) whole-test verdict through TestRunTAP.parse/complete in-process: every stream of (a) '
+        'decoded random bytes, fragments include 4301- and 5000-digit runs (no-raise clause); (d) whole-test verdict through TestRunTAP.parse/complete in-process: every stream of (a) '
         'with <= 4 lines x exit status {0,1,77}, one status for the other enumerated and bulk streams, {0,1,77} for the Hypothesis streams '
         'and texts; (e) sampled streams as real protocol:tap tests under `meson test`. '
         'non-trivial = >= 2 test lines and >= 1 of {plan, YAML block, directive, version line} and not excluded as unspecified; distinct '
@@ -44,6 +45,10 @@ ASSUMPTIONS = [
     '`ok`/`not ok` SKIP handling (`not ok # SKIP` is a failure), version < 13 and invalid plan trailers follow unittests/taptests.py; the latter two are tolerated (error allowed, not demanded) because the property does not name them',
     'after `Bail out!` the specification stops the run; events after the bail-out are not compared',
     'position, text and number of Error events are free; only their presence per stream is compared (validity predicate)',
+    'the number reported for a subtest whose number is written with more digits than int() converts (sys.get_int_max_str_digits()) is not '
+    'compared - TAP 12/13 put no bound on test numbers and do not say how a harness represents one it cannot hold; the line still has to '
+    'give one subtest with the right name and result, must not raise, and the stream must produce an Error (it always has a missing number '
+    'or a plan/count mismatch)',
 ]
 
 # ---------------------------------------------------------------------------------------------------------
@@ -58,8 +63,13 @@ ALPHABET = [
     '# diagnostic', '', '  ---', '  key: v', '  ...',
     'Bail out!', 'Bail out! msg', 'unknown text', '    ok 1',
 ]
+# numbers longer than int() converts (4300 digits by default) and numbers above the old 600-digit cut of the campaigns
+BIG = '1' * 5000
+MID = '7' * 700
+ALPHABET.append('ok ' + BIG)
+LONG_LINE = reftap.int_str_limit() or 4300      # a line longer than this in a generated case holds an over-long digit run
 # length 4 (quick and thorough): the alphabet without forms that only repeat another form's role there
-ALPHABET4 = [a for a in ALPHABET if a not in ('ok 0', 'ok 007', 'Bail out! msg', 'TAP version 14', 'TAP version 12', '1..1 # TODO')]
+ALPHABET4 = [a for a in ALPHABET if a not in ('ok 0', 'ok 007', 'Bail out! msg', 'TAP version 14', 'TAP version 12', '1..1 # TODO', 'ok ' + BIG)]
 # thorough tier, length 5: forms that take part in counters / state transitions
 ALPHABET5 = [
     'ok', 'ok 1', 'ok 2', 'ok 3 - c', 'not ok', 'ok # SKIP', 'not ok # TODO',
@@ -72,15 +82,14 @@ EXTRA_LINES = [
     ' ---', ' k: v', ' ...', '    ---', '    ...', '  - item', '   ', '---', '...', '#', '# 1..3', '#ok 1', 'TAP version 13 ',
     'Bail out! # x', 'not ok # SKIP why', 'ok 1 - é', 'ok 2 - 名前', 'okay', 'ok1', 'not  ok', 'OK 1', '1..', '2..3', '1..3x',
     'ok 1 2', 'ok 1 a \\# b', 'ok 1 # TODOS', 'ok 1 # x # TODO', 'bail out!', 'TAP version 013', 'TAP Version 13', 'ok 00', 'ok 1 # SKIP\tx',
+    'ok ' + BIG, 'not ok ' + BIG + ' - big # TODO', '1..' + BIG, 'TAP version ' + BIG, 'ok ' + MID, '1..' + MID, 'ok 9' + BIG[1:] + ' - other big',
 ]
 
 BAD_RESULTS = (reftap.FAIL, reftap.XPASS)
-SIG_DUPGAP = 'no-error:duplicate-number+missing-number'
 SIG_INTLIMIT = 'raises:ValueError/int-max-str-digits'
-EXCL_DUPGAP = 'known defect class: duplicate + gap with highest number == count (error-iff not evaluated)'
-EXCL_DIGITS = 'known defect class: digit run > 600 characters (int() limit)'
 EXCL_TOLERATED = 'error-iff not evaluated: only fixture-pinned classes present (version < 13, plan trailer)'
 EXCL_BAILOUT = 'error-iff not evaluated after Bail out!'
+EXCL_BIGNUM = 'reported subtest number not compared: written with more digits than int() converts (everything else is compared)'
 
 
 # ---------------------------------------------------------------------------------------------------------
@@ -133,22 +142,10 @@ def tap_run(lines: T.Sequence[str], rc: int) -> T.Tuple[bool, str]:
 # ---------------------------------------------------------------------------------------------------------
 # oracle
 
-def long_digits(lines: T.Iterable[str]) -> bool:
-    for ln in lines:
-        run = 0
-        for c in ln:
-            if '0' <= c <= '9':
-                run += 1
-                if run > reftap.MAX_DIGITS:
-                    return True
-            else:
-                run = 0
-    return False
-
-
-def is_dupgap(R: reftap.Interp) -> bool:
-    return R.named == [reftap.C_DUP, reftap.C_MISSING] and not R.tolerated and bool(R.numbers) \
-        and max(R.numbers) == len(R.numbers)
+def dupgap_cancel(R: reftap.Interp) -> bool:
+    """histogram only: the class of the repaired defect a84685a (one duplicate and one gap, highest number == count)"""
+    nums = [n for n, _, _ in R.tests]
+    return R.named == [reftap.C_DUP, reftap.C_MISSING] and not R.tolerated and bool(nums) and max(nums) == len(nums)
 
 
 def raise_failure(lines: T.Sequence[str], e: BaseException, what: str = 'TAPParser.parse') -> Failure:
@@ -164,7 +161,12 @@ def _show(lines: T.Sequence[str]) -> str:
     return s if len(s) < 600 else s[:600] + '...'
 
 
-def compare(lines: T.Sequence[str], events: list, R: reftap.Interp, exclude_known: bool = True) -> T.Tuple[T.Optional[Failure], str]:
+def _shown(tests: T.Iterable[T.Tuple[T.Any, ...]]) -> list:
+    """(number, result) pairs of reference subtests for messages / samples (a 5000-digit int cannot be printed)"""
+    return [(reftap.show_num(t[0]), t[-1]) for t in tests]
+
+
+def compare(lines: T.Sequence[str], events: list, R: reftap.Interp) -> T.Tuple[T.Optional[Failure], str]:
     """-> (failure, class tag)"""
     if R.unspecified:
         return None, 'unspecified'
@@ -182,10 +184,13 @@ def compare(lines: T.Sequence[str], events: list, R: reftap.Interp, exclude_know
     got = [(e.number, e.name, e.result.value) for e in cmp_events if kind(e) == 'Test']
     want = R.tests
     if len(got) != len(want):
-        return Failure('tests/count', case, f'{_show(lines)}: expected {len(want)} subtests {[(n, r) for n, _, r in want]}, got {len(got)}: {got}'), 'x'
+        return Failure('tests/count', case, f'{_show(lines)}: expected {len(want)} subtests {_shown(want)}, got {len(got)}: {got}'), 'x'
     for i, ((gn, gname, gres), (wn, wnames, wres)) in enumerate(zip(got, want)):
-        if gn != wn:
-            return Failure('tests/number', case, f'{_show(lines)}: subtest #{i + 1} should have number {wn}, got {gn} ({got})'), 'x'
+        if i in R.loose:
+            if not isinstance(gn, int) or isinstance(gn, bool):
+                return Failure('tests/number', case, f'{_show(lines)}: subtest #{i + 1} has the number {gn!r:.80}, which is not an integer'), 'x'
+        elif gn != wn:
+            return Failure('tests/number', case, f'{_show(lines)}: subtest #{i + 1} should have number {reftap.show_num(wn)}, got {gn} ({got})'), 'x'
         if gres != wres:
             return Failure(f'tests/result:{wres}->{gres}', case, f'{_show(lines)}: subtest #{i + 1} should be {wres}, got {gres}'), 'x'
         if wnames is not None and gname not in wnames:
@@ -202,8 +207,6 @@ def compare(lines: T.Sequence[str], events: list, R: reftap.Interp, exclude_know
     if named:
         tag = 'err:' + min(R.classes, key=lambda c: (R.classes[c], c))
         if n_err == 0:
-            if exclude_known and is_dupgap(R):
-                return None, 'known-dupgap'
             return Failure('no-error:' + '+'.join(named), case,
                            f'{_show(lines)}: the stream has {named} (reference, first definite at line index {R.classes}) '
                            f'but no Error event was produced: {events}'), tag
@@ -251,24 +254,19 @@ def check_verdict(lines: T.Sequence[str], events: list, rcs: T.Iterable[int]) ->
     return None
 
 
-# The two defect classes found on the pinned tree (duplicate+gap cancelling out, int() digit limit) were repaired by
-# `fix:` commits in /repo (see known_findings.json "fixed"), so they are searched like everything else.  The exclusion
-# machinery is kept only as a development aid: VERIF_C18_EXCLUDE_KNOWN=1 re-enables it (never set by registered commands).
-EXCLUDE_KNOWN = bool(os.environ.get('VERIF_C18_EXCLUDE_KNOWN'))
+# The two defect classes found on the pinned tree (duplicate + gap cancelling out, numbers beyond the int() digit limit) were
+# repaired by `fix:` commits in /repo (a84685a, 6c730bd; known_findings.json "fixed"): nothing is excluded for them any more,
+# the campaigns enumerate / generate both classes and judge them with the oracle below; probes() and replays/regress keep the
+# original inputs as regression cases.
 
-
-def check_stream(lines: T.Sequence[str], rcs: T.Iterable[int] = (), exclude_known: T.Optional[bool] = None) -> T.Tuple[T.Optional[Failure], str, T.Optional[reftap.Interp]]:
+def check_stream(lines: T.Sequence[str], rcs: T.Iterable[int] = ()) -> T.Tuple[T.Optional[Failure], str, T.Optional[reftap.Interp]]:
     """full check of one stream -> (failure, class tag, reference interpretation)"""
-    if exclude_known is None:
-        exclude_known = EXCLUDE_KNOWN
-    if exclude_known and long_digits(lines):
-        return None, 'excluded-digits', None
     try:
         events = impl_events(lines)
     except Exception as e:
         return raise_failure(lines, e), 'raise', None
     R = reftap.interpret(lines)
-    f, tag = compare(lines, events, R, exclude_known)
+    f, tag = compare(lines, events, R)
     if f is None and rcs:
         try:
             f = check_verdict(lines, events, rcs)
@@ -414,7 +412,7 @@ def _minimize(lines: T.Sequence[str], sig: str, rcs: T.Tuple[int, ...]) -> T.Opt
     fam = _family(sig)
 
     def run(cand: T.Sequence[str]) -> T.Optional[Failure]:
-        f, _, _ = check_stream(cand, rcs, exclude_known=False)
+        f, _, _ = check_stream(cand, rcs)
         return f if f is not None and _family(f.sig) == fam else None
 
     small = minimize_list(list(lines), lambda cand: run(cand) is not None, max_tests=300)
@@ -453,14 +451,16 @@ def _enum_shard(shard: T.Tuple[T.List[str], int, int, int, int], ev: Evidence, f
                 excl['unspecified by TAP 12/13: ' + R.unspecified[0]] += 1
             elif tag == 'soft':
                 excl['error-iff not evaluated: ' + R.soft[0]] += 1
-            elif tag == 'known-dupgap':
-                excl[EXCL_DUPGAP] += 1
             elif tag == 'tolerated-only':
                 excl[EXCL_TOLERATED] += 1
             elif tag == 'bailout':
                 excl[EXCL_BAILOUT] += 1
+            if R.loose:
+                excl[EXCL_BIGNUM] += 1
             if len(R.classes) == 1 and tag.startswith('err:'):
                 hist['single-class:' + tag[4:]] += 1
+            if tag.startswith('err:') and dupgap_cancel(R):
+                hist['dup-and-gap-cancel (fixed defect class, judged)'] += 1
             if tag.startswith('err:'):
                 for c in R.classes:
                     hist['has:' + c] += 1
@@ -468,7 +468,7 @@ def _enum_shard(shard: T.Tuple[T.List[str], int, int, int, int], ev: Evidence, f
                 nt += 1
             if samples[tag] < 2 and len(lines) == maxlen and (n % 97 == 0):
                 samples[tag] += 1
-                ev.case({'lines': [x.rstrip('\n') for x in lines], 'ref_tests': [(a, c) for a, _, c in R.tests], 'ref_classes': R.named},
+                ev.case({'lines': [x.rstrip('\n') for x in lines], 'ref_tests': _shown(R.tests), 'ref_classes': R.named},
                         cls='enum/' + tag, n=0)
         if f is not None and f.sig not in sigs:
             sigs.add(f.sig)
@@ -621,22 +621,24 @@ def with_eol(lines: T.Sequence[str], eol: int) -> T.List[str]:
 
 def _tally(ev: Evidence, case: T.Any, tag: str, R: T.Optional[reftap.Interp], prefix: str) -> None:
     if R is None:
-        if tag == 'excluded-digits':
-            ev.exclude(EXCL_DIGITS)
         ev.case(None, cls=f'{prefix}/{tag}')
         return
     if R.unspecified:
         ev.exclude('unspecified by TAP 12/13: ' + R.unspecified[0])
     elif tag == 'soft':
         ev.exclude('error-iff not evaluated: ' + R.soft[0])
-    elif tag == 'known-dupgap':
-        ev.exclude(EXCL_DUPGAP)
     elif tag == 'tolerated-only':
         ev.exclude(EXCL_TOLERATED)
     elif tag == 'bailout':
         ev.exclude(EXCL_BAILOUT)
+    if R.loose:
+        ev.exclude(EXCL_BIGNUM)
+    if isinstance(case, dict) and any(len(x) > LONG_LINE for x in case['lines']):
+        ev.event(f'{prefix}:has-over-long-number')
     if len(R.classes) == 1 and tag.startswith('err:'):
         ev.event('single-class:' + tag[4:])
+    if tag.startswith('err:') and dupgap_cancel(R):
+        ev.event('dup-and-gap-cancel (fixed defect class, judged)')
     if tag.startswith('err:'):
         for c in R.classes:
             ev.event('has:' + c)
@@ -740,8 +742,6 @@ BAD_RES = {'FAIL', 'ERROR', 'UNEXPECTEDPASS', 'TIMEOUT', 'INTERRUPT'}
 
 def e2e_expect(lines: T.Sequence[str], rc: int) -> T.Tuple[T.Optional[bool], str]:
     """reference verdict for a stream run as a real test, None = not decidable from the documents"""
-    if EXCLUDE_KNOWN and long_digits(lines):
-        return None, EXCL_DIGITS
     R = reftap.interpret(lines)
     if R.unspecified:
         return None, 'unspecified by TAP 12/13: ' + R.unspecified[0]
@@ -750,8 +750,6 @@ def e2e_expect(lines: T.Sequence[str], rc: int) -> T.Tuple[T.Optional[bool], str
     if R.soft:
         return None, 'error-iff not evaluated: ' + R.soft[0]
     if R.classes:
-        if EXCLUDE_KNOWN and is_dupgap(R):
-            return None, EXCL_DUPGAP
         return True, ''
     if R.tolerated:
         return None, EXCL_TOLERATED
@@ -807,7 +805,7 @@ def e2e_check(root: str, cases: T.List[T.Tuple[T.List[str], int]], ev: Evidence)
             sig = 'e2e/reported-good' if want else 'e2e/reported-bad-without-cause'
             fails.append(Failure(sig, {'e2e': True, 'lines': lines, 'rc': rc},
                                  f'`meson test` reported {res} for a protocol:tap test printing {_show(lines)} and exiting {rc}; '
-                                 f'reference: subtests {[(n, r) for n, _, r in R.tests]}, classes {R.named}, bail-out {R.bailout is not None} '
+                                 f'reference: subtests {_shown(R.tests)}, classes {R.named}, bail-out {R.bailout is not None} '
                                  f'=> must be {"bad" if want else "not bad"}'))
     if (rt.rc != 0) != any_bad:
         fails.append(Failure('e2e/exit-status', {'e2e': True, 'cases': [{'lines': l, 'rc': rc} for l, rc in cases][:50]},
@@ -837,9 +835,9 @@ def e2e_sample(seed: int, n: int) -> T.List[T.Tuple[T.List[str], int]]:
 # ---------------------------------------------------------------------------------------------------------
 
 def probes(ctx: Ctx) -> None:
-    """dedicated deterministic probes for the confirmed defects (their classes are excluded from the campaigns)"""
+    """deterministic regression probes for the two defects that were fixed (their classes are also part of the campaigns)"""
     for probe in (['ok 1', 'ok 1', 'ok 3'], ['1..3', 'ok 1', 'ok 1', 'ok 3'], ['ok 2', 'ok 2'], ['ok 1', 'ok 3', 'ok 3', '1..3']):
-        f, _, _ = check_stream(with_eol(probe, 0), (0,), exclude_known=False)
+        f, _, _ = check_stream(with_eol(probe, 0), (0,))
         ctx.ev.case({'lines': probe}, cls='probe/dup-and-gap')
         ctx.ev.evaluations += 1
         if f is not None:
@@ -890,7 +888,8 @@ def run(ctx: Ctx) -> None:
             cases += [(with_eol(list(x), 0), rc) for x, rc in (
                 (('1..2', 'ok 1', 'ok 2'), 0), (('1..2', 'ok 1', 'not ok 2'), 0), (('ok 1 # TODO',), 0), (('not ok 1 # TODO',), 0),
                 (('1..0 # SKIP nothing',), 0), (('1..1', 'ok 1'), 77), (('ok 1', 'Bail out!'), 0), (('ok 1', '1..1', 'ok 2'), 0),
-                (('TAP version 13', 'ok 1', '  ---', '  x: y'), 0), (('1..1', '1..1', 'ok'), 0))]
+                (('TAP version 13', 'ok 1', '  ---', '  x: y'), 0), (('1..1', '1..1', 'ok'), 0),
+                (('ok 1', 'ok 1', 'ok 3'), 0), (('ok ' + BIG,), 0), (('1..' + BIG, 'ok 1'), 0), (('TAP version ' + BIG, '1..1', 'ok 1'), 0))]
         ctx.fail_all(e2e_check(os.path.join(ctx.scratch, f'e2e{b}'), cases, ctx.ev))
 
 
@@ -903,5 +902,5 @@ def replay(ctx: Ctx, case: T.Any, doc: dict) -> T.Optional[Failure]:
     if case.get('expand_digits'):
         lines = [x.replace('<DIGITS>', '1' * int(case['expand_digits'])) for x in lines]
     rcs = (case['rc'],) if 'rc' in case else (0, 1, 77)
-    f, _, _ = check_stream(lines, rcs, exclude_known=False)
+    f, _, _ = check_stream(lines, rcs)
     return f
